@@ -11,6 +11,9 @@ REPO = "/repo"
 # Self-test mode only (bin/selftest): VERIF_ALT=<scratch worktree of /repo with a change applied> runs the same checks against
 # that tree from a private copy of the harness, with work files, replays and evidence kept inside the worktree — so that
 # /repo, /verif/evidence and other running checks are not touched.  Registered commands never set it.
+if os.environ.get("VERIF_ALT_EVID"):       # fault-injection self-test: evidence, work files and replays of those runs go elsewhere
+    _q = os.environ["VERIF_ALT_EVID"]
+    WORKROOT, REPLAYS, EVID = os.path.join(_q, "work"), os.path.join(_q, "replays"), os.path.join(_q, "evidence")
 ALT = os.environ.get("VERIF_ALT")
 if ALT:
     REPO = os.path.abspath(ALT)
@@ -28,6 +31,86 @@ JAR = "/opt/veriftools/tla/tla2tools.jar:/opt/veriftools/tla/CommunityModules-de
 
 class ToolError(Exception):
     pass
+
+
+# Self-test aid (bin/selftest faults): VERIF_FAULT=num|err|panic corrupts a few of the results that come back from the harness, on
+# the unchanged tree.  Every check must then report a violation (exit 1) — none may stay quiet (vacuous judge) or fall over (exit 2:
+# a reporting path that was never exercised).  Registered commands never set it.
+FAULT = os.environ.get("VERIF_FAULT")
+
+
+def _bump(v):
+    """first number found in a result value is changed"""
+    if isinstance(v, dict):
+        if isinstance(v.get("hist"), dict) and _bump(v["hist"]):
+            return True
+        if "bits" in v and "c" in v:
+            v["bits"] = str(int(v["bits"]) ^ 1)
+            if "i" in v:
+                v["i"] = v["i"] + 1
+            return True
+        for k in sorted(v):
+            if isinstance(v[k], bool):
+                continue
+            if isinstance(v[k], int) and k not in ("inv", "ret", "i", "ts"):
+                v[k] += 1
+                return True
+            if isinstance(v[k], (dict, list)) and _bump(v[k]):
+                return True
+    elif isinstance(v, list):
+        for i, x in enumerate(v):
+            if isinstance(x, bool):
+                continue
+            if isinstance(x, int):
+                v[i] = x + 1
+                return True
+            if isinstance(x, (dict, list)) and _bump(x):
+                return True
+    return False
+
+
+def inject_api_fault(res):
+    """res: {job id: [call results]} from the sequential API harness"""
+    if not FAULT:
+        return res
+    for n, jid in enumerate(sorted(res, key=str)):
+        if n % 7 != 3:
+            continue
+        rs = res[jid]
+        oks = [i for i, x in enumerate(rs) if isinstance(x, dict) and "ok" in x]
+        if not oks:
+            continue
+        if FAULT == "panic":
+            rs[oks[len(oks) // 2]] = {"panic": "injected fault"}
+        elif FAULT == "err":
+            rs[oks[-1]] = {"err": {"kind": "Msg", "msg": "injected fault"}}
+        else:
+            for i in reversed(oks):
+                if isinstance(rs[i]["ok"], (dict, list)) and _bump(rs[i]["ok"]):
+                    break
+    return res
+
+
+def inject_conc_fault(results):
+    """results: list of executions from the scheduler harness (calls with res, fin)"""
+    if not FAULT:
+        return results
+    for n, x in enumerate(results):
+        if n % 5 != 2 or x.get("nonterm"):
+            continue
+        if FAULT == "panic":
+            x["panics"] = [{"t": "t1", "msg": "injected fault"}]
+        else:
+            reads = [c for c in x.get("calls", []) if c.get("k") in ("get", "collect", "sum", "count", "hget", "gather") and c.get("res") not in (None, 0)]
+            if reads:
+                c = reads[-1]
+                if isinstance(c["res"], int):
+                    c["res"] += 1024
+                else:
+                    _bump(c["res"]) if isinstance(c["res"], (dict, list)) else None
+            elif isinstance(x.get("fin"), dict):
+                _bump(x["fin"])
+    return results
 
 
 def log(*a):
